@@ -728,6 +728,45 @@ pub fn sched_specs(prop: &str, tier: &str) -> Vec<HistSpec> {
                     }
                 }
             }
+            // crash after an I/O fault: one EIO / EINTR / short write at any worker
+            // write or fdatasync, then a crash at every state (the acknowledged
+            // prefix must survive, whatever the failure did to the worker)
+            {
+                let fault_shapes: Vec<Vec<Sym>> = vec![
+                    vec![Sym::A, Sym::F],
+                    vec![Sym::A, Sym::F, Sym::F],
+                    vec![Sym::A, Sym::A, Sym::F],
+                    vec![Sym::A, Sym::F, Sym::W, Sym::A],
+                    vec![Sym::A, Sym::Pfirst, Sym::F, Sym::F],
+                ];
+                let mut hs: Vec<Vec<SOp>> = fault_shapes.iter().map(|s| schedx::from_syms(s)).collect();
+                if thorough {
+                    for len in 1..=3 {
+                        let keep = |syms: &[Sym], _ops: &[SOp]| -> bool { has(syms, Sym::F) };
+                        hs.extend(schedx::histories(&alpha, len, &keep));
+                    }
+                }
+                for h in hs {
+                    for c in [Cfg::records(2), Cfg::records(3)] {
+                        let mut s = base_spec(prop, h.clone(), c);
+                        s.crash = true;
+                        s.o_c03 = prop == "C03";
+                        s.o_c05 = prop == "C05";
+                        s.max_faults = 1;
+                        s.fault_policy = FaultPolicy::WorkerAll;
+                        out.push(s);
+                        if thorough && h.len() <= 3 {
+                            let mut s2 = base_spec(prop, h.clone(), c);
+                            s2.crash = true;
+                            s2.o_c03 = prop == "C03";
+                            s2.o_c05 = prop == "C05";
+                            s2.max_faults = 2;
+                            s2.fault_policy = FaultPolicy::WorkerSyncEio;
+                            out.push(s2);
+                        }
+                    }
+                }
+            }
             // fixed longer shapes: flushes straddling rotations, acknowledged prefix then more writes
             let shapes: Vec<Vec<Sym>> = vec![
                 vec![Sym::A, Sym::A, Sym::F, Sym::W, Sym::A, Sym::A],
